@@ -671,3 +671,205 @@ def sc_c09_dups(ctx, p):
         return out
     finally: I.order_mode = 'perm'
 SCENARIOS['c09_dups'] = sc_c09_dups
+
+# ------------------------------------------------------------------ C08: meaning-preserving rewrites vanish in preprocessing
+def c08_bases():
+    o = lambda s_: tuple(map(ord, s_))
+    a, b, c = ('var', 'A'), ('var', 'B'), ('var', 'C')
+    P0, P1 = ('prop', o('v0')), ('prop', o('v1'))
+    return [
+        ('bind', 'A', None, ('AG', ('EF', a))),
+        ('bind', 'A', None, ('exists', 'B', None, ('and', ('jump', 'A', ('and', ('not', b), ('AX', a))), ('jump', 'B', ('AX', b))))),
+        ('forall', 'A', o('d'), ('imp', ('EU', P0, ('or', a, ('true',))), ('AF', ('and', ('wild', o('w')), ('false',))))),
+        ('and', ('bind', 'A', None, ('AX', a)), ('exists', 'B', None, ('EF', ('and', b, P1)))),
+        ('iff', ('EX', P0), ('xor', ('AG', P1), ('not', ('true',)))),
+        ('exists', 'A', None, ('forall', 'B', None, ('bind', 'C', None, ('or', ('EW', a, b), ('jump', 'B', ('EX', c)))))),
+    ]
+
+def c08_pieces(phi, opt, names):
+    """lexeme pieces of a formula text.  opt: dict with 'long' (set of positions printed with long operator names),
+    'const' (spelling index), 'paren' (position wrapped in an extra pair of parentheses); names: var -> char tuple"""
+    pos = [0]
+    def go(t):
+        me = pos[0]; pos[0] += 1
+        op = t[0]
+        if op == 'true': r = [['true', 'True', '1'][opt.get('const', 0)]]
+        elif op == 'false': r = [['false', 'False', '0'][opt.get('const', 0)]]
+        elif op == 'prop': r = [list(t[1])]
+        elif op == 'var': r = ['{', list(names[t[1]]), '}']
+        elif op == 'wild': r = ['%', list(t[1]), '%']
+        elif op == 'not': r = ['(', '~'] + go(t[1]) + [')']
+        elif op in R.UN_KW: r = ['(', op, ' '] + go(t[1]) + [')']
+        elif op in R.SYM: r = ['('] + go(t[1]) + [R.SYM[op]] + go(t[2]) + [')']
+        elif op in R.BIN_KW: r = ['('] + go(t[1]) + [' ', op, ' '] + go(t[2]) + [')']
+        else:
+            long_ = me in opt.get('long', ())
+            sym = {'bind': '\\bind', 'exists': '\\exists', 'forall': '\\forall', 'jump': '\\jump'}[op] if long_ else R.HSYM[op]
+            head = [sym] + ([' '] if long_ else []) + ['{', list(names[t[1]]), '}']
+            if op == 'jump': r = ['('] + head + [':'] + go(t[2]) + [')']
+            else: r = ['('] + head + ([] if t[2] is None else [' ', 'in', ' ', '%', list(t[2]), '%']) + [':'] + go(t[3]) + [')']
+        if opt.get('paren') == me: r = ['('] + r + [')']
+        return r
+    return go(phi)
+
+GLUE = {('{', None), (None, '}'), ('%', None), (None, '%')}
+def pieces_text(pieces, ws=None):
+    """characters; ws: dict boundary index -> list of (symbolic) whitespace characters inserted there.  No insertion is
+    possible inside {name} / %name% (the grammar forbids whitespace there)"""
+    out = []
+    for i, p in enumerate(pieces):
+        if ws and i in ws: out.extend(ws[i])
+        out.extend(p if isinstance(p, list) else [ord(c) for c in p])
+    return out
+def boundaries(pieces):
+    """indices i such that whitespace may be inserted before piece i"""
+    ok = []
+    for i in range(1, len(pieces)):
+        a, b = pieces[i - 1], pieces[i]
+        if a in ('{', '%') and isinstance(b, list): continue      # after the opening delimiter of a name
+        if isinstance(a, list) and b in ('}', '%') and i >= 2 and pieces[i - 2] in ('{', '%'): continue   # before the closing delimiter
+        if isinstance(a, str) and a.startswith('\\'): continue   # '\bind' must be followed by its own space piece
+        ok.append(i)
+    return ok
+
+def ws_domain(c):
+    from .mirsym.interp import WS_ASCII, REPS
+    return z3.Or([c == x for x in (9, 10, 13, 32)] + [c == r[0] for r in REPS if r[1]])
+
+def sc_c08(ctx, p):
+    I = interp(); I.ctx = ctx; I.steps = 0
+    from .mirsym import biomodel
+    M = biomodel.Model(2, 0); biomodel.install(I, M)
+    bases = c08_bases()
+    bi = ctx.choose(len(bases), 'base'); phi = bases[bi]
+    o = lambda s_: tuple(map(ord, s_))
+    base_names = {'A': o('a'), 'B': o('b'), 'C': o('c')}
+    base_text = pieces_text(c08_pieces(phi, {}, base_names))
+    kind = p['kind']
+    opt = {}; names = dict(base_names); ws = None
+    npos = R.count_nodes(_plain(phi))
+    if kind == 'ws':
+        pcs = c08_pieces(phi, {}, base_names); bs = boundaries(pcs) + [0, len(pcs)]
+        ws = {}
+        for j in range(p.get('n', 2)):
+            i = bs[ctx.choose(len(bs), f'ws{j}')]
+            ch = z3.BitVec(f'ws{j}', 32); ctx.assume(ws_domain(ch)); ws.setdefault(i, []).append(ch)
+        text = pieces_text(pcs + [''], ws)
+    else:
+        if kind == 'paren': opt['paren'] = ctx.choose(npos, 'paren')
+        if kind == 'spell':
+            opt['long'] = {i for i in range(npos) if ctx.choose(2, f'long{i}')} if npos <= 9 else {ctx.choose(npos, 'long')}
+            opt['const'] = ctx.choose(3, 'const')
+        if kind == 'rename':
+            nm = Names(ctx)
+            L = p.get('len', 1)
+            new = {k: tuple(nm.fresh(L)) for k in ('A', 'B', 'C')}
+            ks = list(new)
+            for x in range(3):
+                for y in range(x + 1, 3): ctx.assume(z3.Or([new[ks[x]][j] != new[ks[y]][j] for j in range(L)]))
+            names = new
+        text = pieces_text(c08_pieces(phi, opt, names))
+    cx = Ptr(Cell(biomodel.CtxObj(M)))
+    r0 = I.run(I.fn('parse_and_minimize_extended_formula'), [cx, RStr(base_text)])
+    r1 = I.run(I.fn('parse_and_minimize_extended_formula'), [cx, RStr(text)])
+    out = {'ok': True, 'group': bi}
+    if r0.variant != 0: out.update({'ok': False, 'why': 'base formula rejected: ' + show(r0.fields[0].chars), 'text': show(base_text), 'base': show(base_text)}); return out
+    okv, m = (False, None) if r1.variant != 0 else ctx.valid(_b(I.equal(r0.fields[0], r1.fields[0])))
+    if not okv:
+        m = m or ctx.model()
+        out.update({'ok': False, 'why': ('variant rejected: ' + show(r1.fields[0].chars)) if r1.variant != 0 else 'preprocessed tree differs from that of the base formula',
+                    'text': concretize(m, text), 'base': show(base_text)})
+    return out
+SCENARIOS['c08'] = sc_c08
+
+def _plain(phi):
+    """AST with names as tuples (for node counting)"""
+    op = phi[0]
+    if op in ('true', 'false', 'prop', 'wild'): return phi
+    if op == 'var': return ('var', (0,))
+    if op == 'jump': return ('jump', (0,), _plain(phi[2]))
+    if op in S.QUANT: return (op, (0,), phi[2], _plain(phi[3]))
+    return (op,) + tuple(_plain(c) for c in phi[1:])
+
+# ------------------------------------------------------------------ C14: errors, never panics, never silent answers
+_LABS = {}
+def c14_lab(k):
+    from . import evalnode as EN
+    from .run import Check
+    if k not in _LABS:
+        chk = Check.__new__(Check); chk.functions = set(); chk.models = set(); chk.paths = 0; chk.queries = 0; chk.unwinding = {'assertions': 0, 'unsat': 0}
+        chk.note_functions = lambda names: chk.functions.update(names)
+        _LABS[k] = EN.EvalLab(chk, 2, k, 0, labels=['w', 'd'])
+    lab = _LABS[k]
+    from .mirsym import biomodel
+    biomodel.install(lab.I, lab.M)          # the interpreter is shared between labs of different k
+    lab.I.intercept = {}
+    from .evalnode import LOOP_KERNELS
+    for kname in LOOP_KERNELS: lab.I.intercept[kname] = lab._kernel(kname)
+    lab.I.intercept['compute_attractor_states'] = lab._attractors
+    return lab
+
+def classify(I, ctx, chars, present, k, netvars=('v0', 'v1')):
+    """expected outcome of the string entry points: ('err', reason) | ('ok', tree)"""
+    try: tree = R.parse(I, chars, True)
+    except R.Reject as e: return ('err', 'syntax: ' + str(e))
+    ok, res, depth = oracle_rename(ctx, tree, list(netvars))
+    if not ok: return ('err', res)
+    if depth > k: return ('err', f'{depth} nested variables but only {k} spare variable sets')
+    for lab_ in _labels_of(tree):
+        found = False
+        for pl in present:
+            if name_eq(ctx, lab_, tuple(map(ord, pl))): found = True; break
+        if not found: return ('err', 'wild-card / domain without a context set')
+    return ('ok', tree)
+
+def _labels_of(t):
+    op = t[0]
+    if op == 'wild': return [t[1]]
+    if op in ('true', 'false', 'prop', 'var'): return []
+    if op == 'jump': return _labels_of(t[2])
+    if op in S.QUANT: return ([t[2]] if t[2] is not None else []) + _labels_of(t[3])
+    out = []
+    for c in t[1:]: out += _labels_of(c)
+    return out
+
+C14_EXT = ['%w%', '!{x} in %d%: AX {x}', '3{x} in %d%: @{x}: (%w% & EF {x})', 'V{x}: !{y}: 3{z}: ({x} | {y} | {z} | %w%)', 'v0 & ~v1', '!{x}: !{y} in %d%: ({x} & {y})', 'EX %d%', '!{x} in %w%: %d%']
+C14_TEMPLATES = ['!{x}: AG EF {x}', '3{x} in %d%: @{x}: (v0 & AX {x})', '(v0 EU ~v1) <=> %w%', 'V{a}: !{b}: ({a} | AF {b})', '\\bind {x}: EX (%w% ^ {x})', 'AG (v0 => EF true)']
+
+def sc_c14(ctx, p):
+    k = p['k']
+    lab = c14_lab(k); I = lab.I; I.ctx = ctx; I.steps = 0
+    ctx.fresh = True
+    for pre in lab.pre: ctx.assume(pre)
+    present = p.get('present', ['w', 'd'])
+    mode = p['mode']
+    if mode == 'chars':
+        cs = [z3.BitVec(f'c{i}', 32) for i in range(p['L'])]
+        for c in cs: ctx.assume(char_domain(c))
+        grp = 0
+    elif mode == 'context':
+        ti = ctx.choose(len(C14_EXT), 'formula'); cs = [ord(ch) for ch in C14_EXT[ti]]; grp = ti
+        present = [['w', 'd'], ['w'], ['d'], []][ctx.choose(4, 'present')]
+    else:
+        ti = ctx.choose(len(C14_TEMPLATES), 'template') if p.get('template') is None else p['template']
+        base = [ord(ch) for ch in C14_TEMPLATES[ti]]; cs = list(base); grp = ti
+        for j in range(p.get('edits', 1)):
+            pos = ctx.choose(len(base), f'pos{j}')
+            ch = z3.BitVec(f'e{j}', 32); ctx.assume(char_domain(ch)); cs[pos] = ch
+    out = {'ok': True, 'group': grp}
+    from .evalnode import result_sets
+    try:
+        fs = RVec([RStr(cs)])
+        from .mirsym import biomodel
+        r = I.run(I.fn('model_check_multiple_extended_formulae'), [fs, Ptr(Cell(biomodel.GraphObj(lab.M))), Ptr(Cell(lab.context_map(present)))])
+        got = 'ok' if r.variant == 0 else 'err'
+        msg = '' if r.variant == 0 else show(r.fields[0].chars)
+    except Panic as e:
+        if not ctx.feasible(): raise Infeasible()
+        out.update({'ok': False, 'why': 'panic: ' + str(e)[:200], 'text': concretize(ctx.model(), cs), 'k': k, 'present': present}); return out
+    exp = classify(I, ctx, cs, present, k)
+    out['cls'] = exp[0]
+    if got != exp[0]:
+        out.update({'ok': False, 'why': f'entry point answers {got} ({msg}) but the input is classified {exp[0]} ({exp[1] if exp[0] == "err" else "valid"})', 'text': concretize(ctx.model(), cs), 'k': k, 'present': present})
+    return out
+SCENARIOS['c14'] = sc_c14
